@@ -234,6 +234,12 @@ def main():
         import json
         p = json.load(open(a.replay))
         it = p["item"]
+        if p.get("part") == "spinblocks":
+            from props import C15 as P15
+            P15.TIMEOUT = 60000
+            r = P15.run_blocks(tuple(it))
+            print(json.dumps({k: r.get(k) for k in ("status", "in", "out", "witness")}, indent=1, default=str))
+            return 1 if r.get("status") == "differ" else 0
         it[4] = tuple(it[4])
         r = run_case(tuple(it))
         print(json.dumps({k: r.get(k) for k in ("status", "api", "out", "witness")}, indent=1, default=str))
@@ -315,6 +321,27 @@ def main():
         if "guard" in r:
             guards[1] += 1
             guards[0] += r["guard"] == "differ"
+    # declared vanishing spin blocks of every registered intermediate (same harness as C15):
+    # each block that allowed_spin_blocks does not report must vanish identically
+    from props import C15 as P15
+    P15.TIMEOUT = TIMEOUT
+    import adcgen
+    n_names = len([n_ for n_ in adcgen.Intermediates().available if n_ not in ("t4_2", "t2_3", "t1_3", "p0_3_ov")])
+    sb_items = [("itmd", n_names * (7 * rep + 1) + k) for rep in range(2 if quick else 6) for k in range(n_names)]
+    for r in pmap(P15.run_blocks, sb_items, limit=300 if quick else 1200, workers=15):
+        st = r.get("status")
+        run.add_outcome("spinblocks", r, sample={"api": r.get("in"), "declared": (r.get("out") or "")[:200],
+                                                  "model": r.get("model"), "verdict": st}
+                        if st == "equal" and r.get("nontrivial") else None,
+                        distinct_key=("spinblocks", r.get("in"), tuple(r.get("item") or ())),
+                        nontrivial=bool(r.get("nontrivial")))
+        if st == "differ":
+            run.violation(f"spinblocks:{r.get('in')}",
+                          f"{r.get('in')} = {(r.get('out') or '')[:150]}: the block {(r.get('witness') or {}).get('block')} is declared to vanish but does not",
+                          {"part": "spinblocks", "item": list(r["item"]), "api": r.get("in"), "output": r.get("out"),
+                           "witness": r.get("witness")})
+        if st == "error" and "HarnessError" in r.get("error", ""):
+            run.harness_error(r["error"])
     run.cov["vacuity_guard"] = {"perturbed_definitions_detected": guards[0], "tried": guards[1]}
     if guards[1] and guards[0] < guards[1] // 2:
         run.harness_error(f"vacuity guard: only {guards[0]}/{guards[1]} perturbed definitions distinguishable")
@@ -326,7 +353,7 @@ def main():
         "intermediates": sorted(list(T_AMPL) + list(DENS) + list(RESID) + MISC),
         "index tuples": variants,
         "models": "n_o, n_v = max(2, number of occ / virt indices); thorough adds 3o3v; fully expanded definitions in 2o2v",
-        "outside": "t4_2 and the quadruples contribution inside t2_3 vanish below 4o4v (symmetry of t4_2 checked in 4o4v in the thorough tier only); t2eri_1..7 and t2sq have no oracle independent of their own formula beyond expansion consistency and declared symmetry; spin blocks: see C15",
+        "outside": "t4_2 and the quadruples contribution inside t2_3 vanish below 4o4v (symmetry of t4_2 checked in 4o4v in the thorough tier only); t2eri_1..7 and t2sq have no oracle independent of their own formula beyond expansion consistency and declared symmetry; declared vanishing spin blocks: up to 6 non-reported blocks per intermediate and run (third order / quadruples excluded), expression-level spin blocks: see C15",
         "z3_timeout_ms": TIMEOUT}
     run.cov["rule"] = "one case per (intermediate, check, index tuple, expansion level, model); non-trivial = non-empty expanded definition"
     run.assumptions += [
